@@ -1,0 +1,380 @@
+//go:build verif
+// +build verif
+
+package jsonpath
+
+// Verification hooks, compiled only with `-tags verif`.
+//
+// They add observability and fault amplification for the runtime monitors in
+// /verif; none of them changes what correct code computes:
+//
+//   - pooled result buffers and key slices are overwritten with a poison value
+//     when they are released, so that any later read of a released buffer is a
+//     deterministic, recognisable wrong value instead of a rare interleaving;
+//   - the unsorted key slice is put into an adversarial order just before it is
+//     sorted, so that a missing or partial sort does not depend on the luck of
+//     Go's map iteration;
+//   - Parse and parsed-function entry/exit maintain in-flight counters and
+//     inject scheduler yields;
+//   - the last parsed syntax tree can be fingerprinted, the package-level
+//     constant lists can be checked, the global parser can be probed for residue.
+
+import (
+	"fmt"
+	"reflect"
+	"regexp"
+	"runtime"
+	"sort"
+	"strings"
+	"sync"
+	"sync/atomic"
+)
+
+const (
+	verifKindParse = iota
+	verifKindEval
+)
+
+// VerifOptions selects which hooks are active. The zero value disables all.
+type VerifOptions struct {
+	PoisonContainers bool
+	PoisonKeys       bool
+	// ScrambleKeys: 0 off; 1 descending; 2 rotate by one; 3 by length then descending;
+	// 4 cycles through 1..3 per call.
+	ScrambleKeys int
+	// YieldEvery: 0 off; otherwise roughly one runtime.Gosched() per YieldEvery hook crossings.
+	YieldEvery uint32
+	// CaptureTree remembers the syntax tree of the latest successful Parse.
+	CaptureTree bool
+}
+
+// VerifCounters reports what the hooks observed since the last VerifResetCounters.
+type VerifCounters struct {
+	ParseCalls          uint64
+	EvalCalls           uint64
+	MaxEvalInFlight     int64
+	EvalOverlappedParse uint64 // evaluations that started while a Parse held the lock
+	ParseOverlappedEval uint64 // Parse calls that started while evaluations were in flight
+	Yields              uint64
+	ContainersPoisoned  uint64
+	KeySlicesPoisoned   uint64
+	KeySlicesScrambled  uint64
+	TreesCaptured       uint64
+}
+
+type verifPoisonValue struct{}
+
+func (*verifPoisonValue) MarshalJSON() ([]byte, error) { return []byte(`"<<VERIF-POISON>>"`), nil }
+func (*verifPoisonValue) String() string               { return "<<VERIF-POISON>>" }
+
+// VerifPoison is the value written over released result buffers.
+var VerifPoison interface{} = &verifPoisonValue{}
+
+// VerifPoisonKey is the string written over released key slices.
+const VerifPoisonKey = "\x00<<VERIF-POISON-KEY>>"
+
+var (
+	verifOpts atomic.Value // VerifOptions
+
+	verifParseCalls, verifEvalCalls                uint64
+	verifEvalInFlight, verifMaxEvalInFlight        int64
+	verifParseInFlight                             int64
+	verifEvalOverlappedParse, verifParseOverlapped uint64
+	verifYields, verifTick                         uint64
+	verifContainersPoisoned, verifKeysPoisoned     uint64
+	verifKeysScrambled, verifTreesCaptured         uint64
+
+	verifTreeMutex sync.Mutex
+	verifLastTree  syntaxNode
+)
+
+func verifOptions() VerifOptions {
+	if o, ok := verifOpts.Load().(VerifOptions); ok {
+		return o
+	}
+	return VerifOptions{}
+}
+
+// VerifConfigure activates the given hooks.
+func VerifConfigure(o VerifOptions) { verifOpts.Store(o) }
+
+// VerifResetCounters zeroes the counters.
+func VerifResetCounters() {
+	for _, p := range []*uint64{&verifParseCalls, &verifEvalCalls, &verifEvalOverlappedParse,
+		&verifParseOverlapped, &verifYields, &verifContainersPoisoned, &verifKeysPoisoned,
+		&verifKeysScrambled, &verifTreesCaptured} {
+		atomic.StoreUint64(p, 0)
+	}
+	atomic.StoreInt64(&verifMaxEvalInFlight, 0)
+}
+
+// VerifStats returns the counters.
+func VerifStats() VerifCounters {
+	return VerifCounters{
+		ParseCalls:          atomic.LoadUint64(&verifParseCalls),
+		EvalCalls:           atomic.LoadUint64(&verifEvalCalls),
+		MaxEvalInFlight:     atomic.LoadInt64(&verifMaxEvalInFlight),
+		EvalOverlappedParse: atomic.LoadUint64(&verifEvalOverlappedParse),
+		ParseOverlappedEval: atomic.LoadUint64(&verifParseOverlapped),
+		Yields:              atomic.LoadUint64(&verifYields),
+		ContainersPoisoned:  atomic.LoadUint64(&verifContainersPoisoned),
+		KeySlicesPoisoned:   atomic.LoadUint64(&verifKeysPoisoned),
+		KeySlicesScrambled:  atomic.LoadUint64(&verifKeysScrambled),
+		TreesCaptured:       atomic.LoadUint64(&verifTreesCaptured),
+	}
+}
+
+func verifPoisonContainer(c *bufferContainer) {
+	if c == nil || !verifOptions().PoisonContainers {
+		return
+	}
+	full := c.result[:cap(c.result)]
+	for i := range full {
+		full[i] = VerifPoison
+	}
+	atomic.AddUint64(&verifContainersPoisoned, 1)
+}
+
+func verifPoisonKeys(s *sort.StringSlice) {
+	if s == nil || !verifOptions().PoisonKeys {
+		return
+	}
+	full := (*s)[:cap(*s)]
+	for i := range full {
+		full[i] = VerifPoisonKey
+	}
+	atomic.AddUint64(&verifKeysPoisoned, 1)
+}
+
+func verifScrambleKeys(s *sort.StringSlice) {
+	mode := verifOptions().ScrambleKeys
+	if s == nil || mode == 0 || len(*s) < 2 {
+		return
+	}
+	n := atomic.AddUint64(&verifKeysScrambled, 1)
+	if mode == 4 {
+		mode = int(n%3) + 1
+	}
+	keys := []string(*s)
+	switch mode {
+	case 1:
+		sort.Sort(sort.Reverse(sort.StringSlice(keys)))
+	case 2:
+		sort.Strings(keys)
+		first := keys[0]
+		copy(keys, keys[1:])
+		keys[len(keys)-1] = first
+	case 3:
+		sort.Slice(keys, func(i, j int) bool {
+			if len(keys[i]) != len(keys[j]) {
+				return len(keys[i]) < len(keys[j])
+			}
+			return keys[i] > keys[j]
+		})
+	}
+}
+
+func verifMaybeYield() {
+	every := verifOptions().YieldEvery
+	if every == 0 {
+		return
+	}
+	// cheap LCG-ish hash of a shared tick: different goroutines see different values
+	t := atomic.AddUint64(&verifTick, 0x9E3779B97F4A7C15)
+	if uint32((t^(t>>29))%uint64(every)) == 0 {
+		atomic.AddUint64(&verifYields, 1)
+		runtime.Gosched()
+	}
+}
+
+func verifEnter(kind int) {
+	switch kind {
+	case verifKindParse:
+		atomic.AddUint64(&verifParseCalls, 1)
+		atomic.AddInt64(&verifParseInFlight, 1)
+		if atomic.LoadInt64(&verifEvalInFlight) > 0 {
+			atomic.AddUint64(&verifParseOverlapped, 1)
+		}
+	case verifKindEval:
+		atomic.AddUint64(&verifEvalCalls, 1)
+		n := atomic.AddInt64(&verifEvalInFlight, 1)
+		for {
+			max := atomic.LoadInt64(&verifMaxEvalInFlight)
+			if n <= max || atomic.CompareAndSwapInt64(&verifMaxEvalInFlight, max, n) {
+				break
+			}
+		}
+		if atomic.LoadInt64(&verifParseInFlight) > 0 {
+			atomic.AddUint64(&verifEvalOverlappedParse, 1)
+		}
+	}
+	verifMaybeYield()
+}
+
+func verifExit(kind int) {
+	verifMaybeYield()
+	switch kind {
+	case verifKindParse:
+		atomic.AddInt64(&verifParseInFlight, -1)
+	case verifKindEval:
+		atomic.AddInt64(&verifEvalInFlight, -1)
+	}
+}
+
+func verifParsed(root syntaxNode) {
+	if !verifOptions().CaptureTree {
+		return
+	}
+	verifTreeMutex.Lock()
+	verifLastTree = root
+	verifTreeMutex.Unlock()
+	atomic.AddUint64(&verifTreesCaptured, 1)
+}
+
+// VerifTreeHandle identifies a captured syntax tree.
+type VerifTreeHandle struct{ root syntaxNode }
+
+// VerifLastTree returns a handle on the tree of the latest Parse that reached
+// the end of parsing while CaptureTree was on (nil root if none).
+func VerifLastTree() VerifTreeHandle {
+	verifTreeMutex.Lock()
+	defer verifTreeMutex.Unlock()
+	return VerifTreeHandle{root: verifLastTree}
+}
+
+// Fingerprint renders every node, flag, literal, subscript and function
+// identity reachable from the tree as text. Two fingerprints of one handle
+// differ iff something reachable from the tree was modified in between.
+func (h VerifTreeHandle) Fingerprint() string {
+	if h.root == nil {
+		return "<nil>"
+	}
+	var b strings.Builder
+	seen := map[uintptr]int{}
+	verifDump(&b, reflect.ValueOf(h.root), seen, 0)
+	return b.String()
+}
+
+var verifRegexpType = reflect.TypeOf((*regexp.Regexp)(nil))
+
+func verifDump(b *strings.Builder, v reflect.Value, seen map[uintptr]int, depth int) {
+	if depth > 200 {
+		b.WriteString("<deep>")
+		return
+	}
+	switch v.Kind() {
+	case reflect.Invalid:
+		b.WriteString("nil")
+	case reflect.Interface:
+		if v.IsNil() {
+			b.WriteString("nil")
+			return
+		}
+		verifDump(b, v.Elem(), seen, depth+1)
+	case reflect.Ptr:
+		if v.IsNil() {
+			b.WriteString("nil")
+			return
+		}
+		if v.Type() == verifRegexpType {
+			// String() is a method on the exported type; read the pattern via the pointer
+			re := (*regexp.Regexp)(v.UnsafePointer())
+			fmt.Fprintf(b, "regexp(%q)", re.String())
+			return
+		}
+		if id, ok := seen[v.Pointer()]; ok {
+			fmt.Fprintf(b, "^%d", id)
+			return
+		}
+		id := len(seen) + 1
+		seen[v.Pointer()] = id
+		fmt.Fprintf(b, "&%d:", id)
+		verifDump(b, v.Elem(), seen, depth+1)
+	case reflect.Struct:
+		b.WriteString(v.Type().Name())
+		b.WriteString("{")
+		for i := 0; i < v.NumField(); i++ {
+			if i > 0 {
+				b.WriteString(",")
+			}
+			b.WriteString(v.Type().Field(i).Name)
+			b.WriteString("=")
+			verifDump(b, v.Field(i), seen, depth+1)
+		}
+		b.WriteString("}")
+	case reflect.Slice, reflect.Array:
+		if v.Kind() == reflect.Slice && v.IsNil() {
+			b.WriteString("nil[]")
+			return
+		}
+		fmt.Fprintf(b, "[%d:", v.Len())
+		for i := 0; i < v.Len(); i++ {
+			if i > 0 {
+				b.WriteString(",")
+			}
+			verifDump(b, v.Index(i), seen, depth+1)
+		}
+		b.WriteString("]")
+	case reflect.Map:
+		fmt.Fprintf(b, "map(%d)@%x", v.Len(), v.Pointer())
+	case reflect.Func:
+		if v.IsNil() {
+			b.WriteString("func(nil)")
+		} else {
+			fmt.Fprintf(b, "func@%x", v.Pointer())
+		}
+	case reflect.String:
+		fmt.Fprintf(b, "%q", v.String())
+	case reflect.Bool:
+		fmt.Fprintf(b, "%t", v.Bool())
+	case reflect.Int, reflect.Int8, reflect.Int16, reflect.Int32, reflect.Int64:
+		fmt.Fprintf(b, "%d", v.Int())
+	case reflect.Uint, reflect.Uint8, reflect.Uint16, reflect.Uint32, reflect.Uint64, reflect.Uintptr:
+		fmt.Fprintf(b, "%d", v.Uint())
+	case reflect.Float32, reflect.Float64:
+		fmt.Fprintf(b, "%v", v.Float())
+	default:
+		fmt.Fprintf(b, "<%s>", v.Kind())
+	}
+}
+
+// VerifCanary returns "" while the package-level constant lists still hold
+// their constant contents, a description otherwise.
+func VerifCanary() string {
+	var bad []string
+	if len(emptyList) != 1 || emptyList[0] != interface{}(emptyEntity) {
+		bad = append(bad, fmt.Sprintf("emptyList=%#v", emptyList))
+	}
+	if len(fullList) != 1 || fullList[0] != interface{}(true) {
+		bad = append(bad, fmt.Sprintf("fullList=%#v", fullList))
+	}
+	return strings.Join(bad, "; ")
+}
+
+// VerifParserResidue reports the non-zero fields of the global parser's action
+// state between two Parse calls ("" when clean). It takes the parse lock.
+func VerifParserResidue() string {
+	parseMutex.Lock()
+	defer parseMutex.Unlock()
+	var bad []string
+	st := &parser.jsonPathParser
+	if st.root != nil {
+		bad = append(bad, "root")
+	}
+	if len(st.params) > 0 {
+		bad = append(bad, fmt.Sprintf("params(%d)", len(st.params)))
+	}
+	if len(st.paramsList) > 0 {
+		bad = append(bad, fmt.Sprintf("paramsList(%d)", len(st.paramsList)))
+	}
+	if st.filterFunctions != nil {
+		bad = append(bad, "filterFunctions")
+	}
+	if st.aggregateFunctions != nil {
+		bad = append(bad, "aggregateFunctions")
+	}
+	if st.accessorMode {
+		bad = append(bad, "accessorMode")
+	}
+	return strings.Join(bad, ",")
+}
